@@ -476,3 +476,33 @@ func LoadDir(dir string) (*Program, error) {
 	}
 	return p, nil
 }
+
+// privateCluster: fn together with the module functions that are only ever called from inside the
+// cluster (helpers split off fn), transitively; closures are not included.
+func (p *Program) privateCluster(fn *ssa.Function) []*ssa.Function {
+	in := map[*ssa.Function]bool{fn: true}
+	out := []*ssa.Function{fn}
+	for changed := true; changed; {
+		changed = false
+		for _, f := range out {
+			for _, call := range callsIn(f) {
+				g := call.Common().StaticCallee()
+				if g == nil || in[g] || !p.InModule(g) || p.inTestFile(g) || g.Parent() != nil || len(g.Blocks) == 0 {
+					continue
+				}
+				private := true
+				for _, cs := range p.CallSitesOf(g) {
+					if !in[cs.Parent()] && !p.inTestFile(cs.Parent()) {
+						private = false
+					}
+				}
+				if private {
+					in[g] = true
+					out = append(out, g)
+					changed = true
+				}
+			}
+		}
+	}
+	return out
+}
